@@ -1973,7 +1973,13 @@ func (db *DatabaseCollectionWithUser) ResyncDocument(ctx context.Context, docid 
 	var updatedDoc *Document
 	var updatedExpiry *uint32
 	var unusedSequences []uint64
+	var attemptSequences []uint64   // sequences assigned by the latest invocation of the callback (regenerateSequences only)
+	var abandonedSequences []uint64 // sequences assigned by invocations whose update was not written (cas retry, write error)
 	writeUpdateFunc := func(currentValue []byte, currentXattrs map[string][]byte, cas uint64) (sgbucket.UpdatedDoc, error) {
+		// (Be careful: this block can be invoked multiple times on cas retry!) Sequences assigned by a previous
+		// invocation were not written, and need to be released.
+		abandonedSequences = append(abandonedSequences, attemptSequences...)
+		attemptSequences = nil
 		// resyncDocument is not called on tombstoned documents, so this value will only be empty if the document was
 		// deleted between DCP event and calling this function. In any case, we do not need to update it.
 		if len(currentValue) == 0 {
@@ -1986,6 +1992,9 @@ func (db *DatabaseCollectionWithUser) ResyncDocument(ctx context.Context, docid 
 		updatedDoc, unusedSequences, err = db.getResyncedDocument(ctx, doc, regenerateSequences)
 		if err != nil {
 			return sgbucket.UpdatedDoc{}, err
+		}
+		if regenerateSequences {
+			attemptSequences = append([]uint64{updatedDoc.Sequence}, unusedSequences...)
 		}
 		base.TracefCtx(ctx, base.KeyAccess, "Saving updated channels and access grants of %q on resync", base.UD(docid))
 
@@ -2005,12 +2014,16 @@ func (db *DatabaseCollectionWithUser) ResyncDocument(ctx context.Context, docid 
 		}
 		return updatedDoc, err
 	}
-	db.releaseSequences(ctx, unusedSequences)
 
 	// these values are updated by the callback function
 	mutateInOpts := sgbucket.MutateInOptions{}
 	var expiry uint32
 	_, err := db.dataStore.WriteUpdateWithXattrs(ctx, docid, db.syncGlobalSyncMouRevSeqNoAndUserXattrKeys(), expiry, previousDoc, &mutateInOpts, writeUpdateFunc)
+	// For timeout errors, the write may or may not have succeeded so the last assigned sequences cannot be released as unused
+	if err != nil && !base.IsTimeoutError(err) {
+		abandonedSequences = append(abandonedSequences, attemptSequences...)
+	}
+	db.releaseSequences(ctx, abandonedSequences)
 	if err == nil {
 		base.Audit(ctx, base.AuditIDDocumentResync, base.AuditFields{
 			base.AuditFieldDocID:      docid,
